@@ -148,7 +148,9 @@ def flo_script(case):
     def verbs_of(pfx, frames):
         for i, f in enumerate(frames):
             L.append("    frame %s%d%s" % (pfx, i, "" if fr_over(f) is None else " in %s%d" % (pfx, fr_over(f))))
-            if pfx in ("F", "G"):
+            if pfx == "F" and case.get("paux") and case["paux"]["at"] == i:
+                L.append("      aux pa")            # a plain auxiliary of this frame of the timed framer
+            if pfx in ("F", "G", "P"):
                 # reports every entry of a frame of the timed framer (the outline changed in this tick)
                 L.append("      do fb ent at enter")
             for v in fr_verbs(f):
@@ -167,6 +169,9 @@ def flo_script(case):
     if case.get("twin") and place["kind"] == "active":
         L += ["", "  framer rdb be active first G0"]
         verbs_of("G", twin_frames(case))
+    if case.get("paux"):
+        L += ["", "  framer pa be aux first P0"]
+        verbs_of("P", case["paux"]["frames"])
     if case.get("helper"):
         L += ["", "  framer helper be aux first H0"]
         verbs_of("H", case["helper"])
@@ -216,6 +221,10 @@ def drv_line(case, mode, start=0, nobs=None):
                 else:
                     o += ["G", str(v[1])] + needs(v[2])
         return o
+    if case.get("paux"):
+        # the timed framer with a plain auxiliary in frame <at>: one line, both framers per tick
+        return " ".join(["run" + mode + "p", tnum(case["period"]), tnum(case.get("stamp0") or "0"), str(start), str(nobs)]
+                        + frames(case["frames"]) + ["A", str(case["paux"]["at"])] + frames(case["paux"]["frames"]))
     b = [tnum(case["stamp0"])] if case.get("stamp0") else []
     if case.get("fperiod"):
         out = ["run" + mode + "q" + ("b" if b else ""), tnum(case["period"])] + b + [tnum(case["fperiod"]), str(nobs)] + frames(case["frames"])
@@ -238,7 +247,7 @@ def exact_ok(case):
 
 
 def bad_build(case):
-    for frames in (case["frames"], case.get("helper") or []):
+    for frames in (case["frames"], case.get("helper") or [], (case.get("paux") or {}).get("frames") or []):
         n = len(frames)
         for i, f in enumerate(frames):
             for v in fr_verbs(f):
@@ -387,6 +396,70 @@ def check_trace(case, line, start=0, count=None, who="rd"):
     return None
 
 
+def exen(nears, fars, far):
+    """frames exited / entered by a transition to `far`: from the first place where the active outline holds
+    the target itself or differs from the target's outline"""
+    for i in range(min(len(nears), len(fars))):
+        if nears[i] == far or nears[i] != fars[i]:
+            return nears[i:], fars[i:]
+    return [], []
+
+
+def check_plain_aux(case, line):
+    """the timed framer carries `aux pa` in frame M.  Demanded: (1) the timed framer itself behaves as if the
+    auxiliary were not there; (2) the auxiliary is there exactly while M is in the active outline; (3) at every
+    entry of M (re-entry included) the auxiliary starts over in its first frame with elapsed 0, recurred 0;
+    (4) between entries of M its clocks and verbs obey the clock law on their own (counted from ITS last
+    outline change), whatever the timed framer's clocks read."""
+    main_case = dict(case)
+    pa = main_case.pop("paux")
+    if line == "ERR build":
+        return check_trace(main_case, line) if not bad_build(case) else None
+    if bad_build(case):
+        return "a program with a dangling far frame built"
+    toks = line.split()
+    if any("/" not in t for t in toks):
+        return "malformed observation %r" % line
+    why = check_trace(main_case, " ".join(t.split("/")[0] for t in toks), 0, case["nticks"], "rd")
+    if why:
+        return "with a plain auxiliary in F%d: %s" % (pa["at"], why)
+    frames, M = case["frames"], pa["at"]
+    aux_case = dict(main_case, frames=pa["frames"])
+    heads = [t.split("/")[0].split(":")[0] for t in toks]
+    act = [int(h[:-1]) for h in heads]
+    seg = None                                       # (start tick, tokens) of the auxiliary's current life
+    segs = []
+    for i, t in enumerate(toks):
+        a = t.split("/")[1]
+        if i == 0:
+            entered, inside = M in outline(frames, act[0]), M in outline(frames, act[0])
+        else:
+            inside = M in outline(frames, act[i])
+            entered = False
+            if heads[i].endswith("*"):
+                exits, enters = exen(outline(frames, act[i - 1]), outline(frames, act[i]), act[i])
+                entered = M in enters
+        if inside != (a != "-"):
+            return "tick %d: frame F%d is %s the active outline, yet the auxiliary is %s" % (
+                i, M, "in" if inside else "not in", "absent" if a == "-" else "running")
+        if entered:
+            if seg:
+                segs.append(seg)
+            seg = (i, [a])
+        elif inside:
+            seg[1].append(a)
+        elif seg:
+            segs.append(seg)
+            seg = None
+    if seg:
+        segs.append(seg)
+    for start, ts in segs:
+        why = check_trace(aux_case, " ".join(ts), start, len(ts), "pa (entered with F%d at tick %d)" % (M, start))
+        if why:
+            return why
+    return None
+
+
 # ----------------------------------------------------------------------------- generation
 
 def gen_lit_time(rng, period):
@@ -481,11 +554,12 @@ def gen_case(rng, tier):
     if stamp0:
         case["stamp0"] = stamp0
     r = rng.random()
-    if r >= 0.5 and rng.random() < 0.3:
+    want_paux = r >= 0.5 and rng.random() < 0.4
+    if r >= 0.5 and not want_paux and rng.random() < 0.3:
         # the framer has its own period: a whole number of ticks, a non-multiple, or less than a tick
         Pf = Fraction(period)
         case["fperiod"] = repr(float(Pf * rng.choice([2, 2, 3, 4, Fraction(3, 2), Fraction(1, 2), 1])))
-    if r >= 0.5 and rng.random() < 0.45:
+    if r >= 0.5 and not want_paux and rng.random() < 0.45:
         # a conditional auxiliary on a timed frame or an over frame (ordinary framer only: an original
         # auxiliary belongs to one main frame at a time)
         k = rng.randrange(nfr)
@@ -499,9 +573,28 @@ def gen_case(rng, tier):
                                        ["G", "next", [["C", "ge", rng.choice([1, 2])]]]])])
         helper.append([["D"]])
         case["helper"] = helper
-    if r >= 0.5 and not case.get("helper") and not case.get("fperiod") and rng.random() < 0.35:
+    if r >= 0.5 and not want_paux and not case.get("helper") and not case.get("fperiod") and rng.random() < 0.35:
         # a second ordinary framer with the very same timeouts / repeats, out of phase
         case["twin"] = rng.choice([["R", "1"], ["R", "2"], ["T", repr(float(Fraction(period) * 2))], ["G", "next", []]])
+    if want_paux:
+        # a plain auxiliary in one frame of the timed framer, with timeouts / repeats of its own
+        k = rng.choice([1, 2, 2, 3])
+        pfr = []
+        for i in range(k):
+            verbs = []
+            for _ in range(rng.choice([1, 1, 2])):
+                q = rng.randrange(10)
+                if q < 3 and i + 1 < k:
+                    verbs.append(["T", repr(float(Fraction(period) * rng.choice([1, 2, 3]))) if rng.random() < 0.6
+                                  else gen_lit_time(rng, period)])
+                elif q < 6 and i + 1 < k:
+                    verbs.append(["R", str(rng.choice([1, 2, 3])) if rng.random() < 0.6 else gen_lit_count(rng)])
+                else:
+                    needs = [rng.choice([["E", rng.choice(["ge", "gt"]), gen_lit_time(rng, period).lstrip("-")],
+                                         ["C", rng.choice(["ge", "ge", "eq", "gt"]), rng.choice([1, 1, 2, 2, 3, 4])]])]
+                    verbs.append(["G", rng.choice(["me"] + list(range(k))), needs if rng.random() < 0.85 else []])
+            pfr.append(verbs)
+        case["paux"] = {"at": rng.randrange(nfr), "frames": pfr}
     if r < 0.2:
         host = [rng.choice([1, 2, 3])] if rng.random() < 0.5 else []
         case["place"] = {"kind": "aux", "host": host, "at": rng.randrange(len(host) + 1)}
@@ -535,7 +628,8 @@ class CHECK(core.Check):
     N_SEARCH = 1500
     RULE = ("tick periods {0.125, 0.25, 0.5, 1.0, 0.1, 0.3} plus 7% tick period 0 and 5% start stamp 2**56 (the store stamp "
             "never advances) and 4% other start stamps; 35% of the plain ordinary-framer programs add a second ordinary "
-            "framer with the same timeouts / repeats one frame behind; x frame sequences of 1-5 flat frames x 6-24 ticks; a frame "
+            "framer with the same timeouts / repeats one frame behind, 40% of the ordinary-framer programs instead carry a plain "
+            "auxiliary `aux pa` (1-3 frames with timeouts / repeats / go of its own) in a random frame of the timed framer; x frame sequences of 1-5 flat frames x 6-24 ticks; a frame "
             "has `timeout T`, `repeat N`, or 1-3 verbs mixing timeout/repeat with `go next|me|Fk [if elapsed|recurred cmp "
             "goal [and …]]`; T on the period grid (0..7 periods), off the grid (±P/2,P/4,P/8), small integers, random "
             "millisecond values, negative literals; N in 0..5, negative, non-integer; bounded-exhaustive: every "
@@ -551,8 +645,10 @@ class CHECK(core.Check):
                "truncated and restored, clocks untouched), its own period (Skedder retime rule), run as active framer, "
                "auxiliary framer or clone (entered at the tick its main frame is entered). For conditional-auxiliary cases "
                "the oracle is the clock law plus 'a taken transition's condition held'; the full first-condition rule is "
-               "checked there by the model comparison. Not modelled: plain auxiliaries nested inside the timed framer, "
-               "several / overlapping conditional auxiliaries (D3), periods of auxiliary framers (they are run by their main "
+               "checked there by the model comparison. One plain auxiliary nested inside the timed ordinary framer (its own "
+               "clocks start at every entry of its main frame; the framer's clocks are unaffected) is modelled and compared. "
+               "Not modelled: plain auxiliaries combined with a conditional auxiliary, a framer period or a cloned/auxiliary "
+               "timed framer; several plain auxiliaries; several / overlapping conditional auxiliaries (D3), periods of auxiliary framers (they are run by their main "
                "framer), the TypeError branch of updateTimer (store stamp None, unreachable under the Skedder); on decimal "
                "periods only the Float instantiation is compared, the exact tick formulas are proved for exact time only"]
     TECHNIQUE = "Lean 4 theorems over all programs and stamp sequences (induction on runs) + differential correspondence on generated FloScript"
@@ -567,7 +663,13 @@ class CHECK(core.Check):
                   "conditional auxiliaries: C11_clocks_any_decision / C11_clocks_with_conditional_aux (the clock law for the "
                   "machine with `aux helper if …`, for every decision function), C11_suspension_is_not_an_outline_change "
                   "(a tick without a taken transition - helper started, iterated or finished - keeps stamp and counts on), "
-                  "C11_plain_machine_is_instance; framer periods: C11_framer_period_zero, C11_framer_period_runs, "
+                  "C11_plain_machine_is_instance; plain auxiliaries inside the timed framer: C11_plain_aux_leaves_framer_clocks "
+                  "(the framer's per-tick observations = the run of the same frames without the auxiliary, all programs / "
+                  "stamp lists), C11_plain_aux_restarts_with_main_frame (any taken transition that enters the main frame, "
+                  "re-entry included, puts the auxiliary in its first frame with stamp now, elapsed 0, recurred 0), "
+                  "C11_plain_aux_stops_with_main_frame, C11_plain_aux_inactive_until_entered, "
+                  "C11_plain_aux_is_clock_machine_from_entry (between entries the auxiliary's observations are `run` of its "
+                  "own frames over the stamps since the entry, so all clock / timeout / repeat theorems apply to it); framer periods: C11_framer_period_zero, C11_framer_period_runs, "
                   "C11_framer_period_stamps (a framer of period k ticks is run exactly in the ticks divisible by k and sees "
                   "the stamps 0,kP,2kP,…); clocks that do not advance: C11_recurred_counts_iterations_any_clock (recurred "
                   "= completed iterations for ARBITRARY stamp lists, no monotonicity), C11_zero_tick_period_constant_stamp "
@@ -581,7 +683,7 @@ class CHECK(core.Check):
                   "(restartTimer/updateTimer/restartCounter/updateCounter, enter, segue, precur), building.py "
                   "(buildTimeout/buildRepeat), needing.py Need.Check at tolerance 0, skedding.py stamp accumulation, "
                   "validated only by the correspondence runs; Lean Float = IEEE binary64 = CPython float; one framer instance "
-                  "with nested frames, run as active framer, auxiliary framer or clone (no plain auxiliaries inside it, TypeError branch of updateTimer); the ceil(T/P) tick formula "
+                  "with nested frames, run as active framer, auxiliary framer or clone (one plain auxiliary inside an ordinary timed framer; not: TypeError branch of updateTimer); the ceil(T/P) tick formula "
                   "is proved in exact time only — at decimal periods the implementation follows the Float instantiation.")
 
     def generate(self, rng, n, tier):
@@ -634,6 +736,16 @@ class CHECK(core.Check):
                     fq = repr(float(P * mult))
                     out.append({"period": period, "nticks": 14, "fperiod": fq, "frames": [[["T", txt]], [["G", 0, []]]], "origin": "exhaustive"})
                     out.append({"period": period, "nticks": 14, "fperiod": fq, "frames": [[["R", str(k)]], [["G", 0, []]]], "origin": "exhaustive"})
+                # a plain auxiliary with the timeout / repeat inside the timed framer: in a frame that is re-entered
+                # every 6 iterations (the auxiliary's clocks restart with it, the framer's own do not depend on it),
+                # and in an over frame whose under frames hand over every second tick (the auxiliary runs on)
+                for verb in (["T", txt], ["R", str(k)]):
+                    pa = [[verb], [["G", 0, []]]]
+                    out.append({"period": period, "nticks": 16, "origin": "exhaustive", "paux": {"at": 1, "frames": pa},
+                                "frames": [[["G", "next", [["C", "ge", 1]]]], [["G", "me", [["C", "ge", 6]]]]]})
+                    out.append({"period": period, "nticks": 16, "origin": "exhaustive", "paux": {"at": 0, "frames": pa}, "frames": [
+                        {"over": None, "verbs": [["G", 3, [["C", "ge", 9]]]]}, {"over": 0, "verbs": [["G", 2, [["C", "ge", 2]]]]},
+                        {"over": 0, "verbs": [["G", 1, [["C", "ge", 2]]]]}, {"over": None, "verbs": [["G", 0, []]]}]})
                 if tier == "thorough":
                     for d in (2, 4, 8):
                         for sg in (-1, 1):
@@ -666,6 +778,12 @@ class CHECK(core.Check):
                 return ["ERR no framer %s" % name] * (per * len(insts))
             watch.append((fr, store.fetch("framer.%s.state.elapsed" % name), store.fetch("framer.%s.state.recurred" % name), []))
 
+        pa = None
+        if case.get("paux"):
+            fr = flob.framer_of(sk, "pa")
+            if fr is None:
+                return ["ERR no framer pa"] * (per * len(insts))
+            pa = (fr, store.fetch("framer.pa.state.elapsed"), store.fetch("framer.pa.state.recurred"), [])
         ents = {}
 
         def entered(name):
@@ -675,6 +793,10 @@ class CHECK(core.Check):
             for fr, el, rc, rows in watch:
                 if fr.active is not None:                   # an aux / clone is only there while its main frame is
                     rows.append((int(fr.active.name[1:]), ents.get(fr.name, 0) > 0, el.value, rc.value, st.stamp))
+            if pa:
+                fr, el, rc, rows = pa
+                rows.append((int(fr.active.name[1:]), ents.get("pa", 0) > 0, el.value, rc.value, st.stamp)
+                            if fr.active is not None else None)
             ents.clear()
         flob.run(sk, obs=observe, nticks=case["nticks"], ent=entered)
 
@@ -682,6 +804,13 @@ class CHECK(core.Check):
             f = Fraction(x) * Q
             return str(int(f)) if f.denominator == 1 else "inexact(%r)" % x
         out = []
+        if pa:
+            # one line, both framers per tick: `<timed framer>/<auxiliary or ->`
+            main_rows, aux_rows = watch[0][3], pa[3]
+            for conv in ([bits, units] if per == 2 else [bits]):
+                tok = lambda row: "-" if row is None else "%d%s:%s:%d:%s" % (row[0], "*" if row[1] else ".", conv(row[2]), row[3], conv(row[4]))
+                out.append(" ".join(tok(m) + "/" + tok(a) for m, a in zip(main_rows, aux_rows)))
+            return out
         for fr, el, rc, rows in watch:
             out.append(" ".join("%d%s:%s:%d:%s" % (a, "*" if e else ".", bits(x), r, bits(now)) for a, e, x, r, now in rows))
             if per == 2:
@@ -697,6 +826,8 @@ class CHECK(core.Check):
         insts = instances(case)
         if len(out) != per * len(insts):
             return "expected traces of %d instances, got %d lines" % (len(insts), len(out))
+        if case.get("paux"):
+            return check_plain_aux(case, out[0])
         for k, (name, start, count, icase) in enumerate(insts):      # the property holds for every instance
             why = check_trace(icase, out[k * per], start, count, name)
             if why:
@@ -719,7 +850,8 @@ class CHECK(core.Check):
         place = (case.get("place") or {"kind": "active"})["kind"]
         return "%s,P=%s%s%s%s%s%s,%s" % (k, case["period"], ",nested" if nested else "", ",cond-aux" if has_susp(case) else "",
                                          ",framer-period" if case.get("fperiod") else "", ",twin" if case.get("twin") else "",
-                                         ",stuck-clock" if case["period"] == "0.0" or case.get("stamp0") == BIG else "", place)
+                                         ",stuck-clock" if case["period"] == "0.0" or case.get("stamp0") == BIG else "",
+                                         place + (",plain-aux" if case.get("paux") else ""))
 
     def shrink_candidates(self, case):
         def clone():
@@ -730,6 +862,17 @@ class CHECK(core.Check):
             c = clone(); c.pop("fperiod"); yield c
         if case.get("twin"):
             c = clone(); c.pop("twin"); yield c
+        if case.get("paux"):
+            c = clone(); c.pop("paux"); yield c
+            pf = case["paux"]["frames"]
+            for i, f in enumerate(pf):
+                for j in range(len(f)):
+                    if len(f) > 1:
+                        c = clone(); del c["paux"]["frames"][i][j]; yield c
+            if len(pf) > 1 and not any(v[0] == "G" and v[1] == len(pf) - 1 for f in pf for v in f):
+                c = clone(); c["paux"]["frames"].pop()
+                if not bad_build(c):
+                    yield c
         if case.get("stamp0") and case["stamp0"] != BIG:
             c = clone(); c.pop("stamp0"); yield c
         if has_susp(case):
